@@ -515,8 +515,15 @@ def check(ctx, run):
     LEN_ = [e["v"] for en in prog.enums.values() for e in en["enumerators"] if e["name"] == "SIMPLE_STRING_BUFFER_LEN"]
     report_rules(prog, run, "R7", "R7", LEN_[0] if LEN_ else 0)
     tl = prog.fn(DET + "::totalMemoryLeaks")
-    rets = [render(tl, tl.node(n.get("value"))) for n in tl.walk() if n["k"] == "ReturnStmt"]
-    run.ob("R7", "totalMemoryLeaks asks the table with the caller's period", tl.site, rets == ["memoryTable_.getTotalLeaks(%s)" % tl.params[0]["name"]], witness=rets)
+    asked = []
+    ev = Evaluator(prog, tl, env={tl.params[0]["name"]: 3}, calls={TAB + "::getTotalLeaks": lambda *a_: (asked.append(a_[-1]), 77)[1]})
+    ev.inline = {g.qn for g in prog.functions.values() if g.qn.startswith(DET + "::")}
+    try:
+        ev.run_blocks(tl.entry, max_steps=300)
+        r = getattr(ev, "ret", None)
+    except Unknown as u:
+        r = "unknown: %s" % u
+    run.ob("R7", "totalMemoryLeaks folded: asks the table once with the caller's period and returns its count", tl.site, asked == [3] and r == 77, witness={"asked": asked, "returns": r})
 
     # ---------------- R8 ----------------------------------------------------
     from .C10 import slot_switch_rules, PLUGIN
